@@ -280,6 +280,20 @@ impl ItsWorld {
         o
     }
 
+    /// The authorisation forest the service asks for when `caller` deploys with these arguments
+    /// (recorded, nothing kept).
+    pub fn record_deploy(&mut self, caller: &Address, salt: &[u8; 32], name: &[u8], symbol: &[u8], decimals: u32, supply: i128, minter: Option<Address>) -> Vec<(soroban_sdk::xdr::ScAddress, soroban_sdk::xdr::SorobanAuthorizedInvocation)> {
+        let id = self.view_token_id(caller, salt);
+        self.prime_for(&id);
+        let (its, c, s, n, sy, m) = (self.its.clone(), caller.clone(), *salt, name.to_vec(), symbol.to_vec(), minter.clone());
+        let f = move |env: &Env| {
+            let cl = InterchainTokenServiceClient::new(env, &its);
+            flat(cl.try_deploy_interchain_token(&c, &BytesN::from_array(env, &s), &metadata(env, &n, &sy, decimals), &supply, &m)).map(|b| b.to_array())
+        };
+        let (_, forest) = self.u.record(&f);
+        forest
+    }
+
     pub fn do_register_canonical(&mut self, token: &Address) -> CallOut<[u8; 32]> {
         let (its, t) = (self.its.clone(), token.clone());
         self.u.call(Auth::Nobody, &move |env: &Env| {
